@@ -45,7 +45,8 @@ META = {
             "contract: the size assertion of cleanUp never fires, relations / connected maps describe the same sets, each "
             "payload under its own block), C13_relations_disjoint (under the contract: ATV/VTB connected XOR in flight, "
             "no id twice in or across relations), C13_cleanUp_exact, C13_removeAll_forgets, C13_no_resurrection, and "
-            "C13_vbk_header_both_refuted / C13_resubmit_connected_refuted (the two tolerated deviations as model facts; "
+            "C13_vbk_header_both_refuted (+ C13_inflight_block_resolved: gone after the next pass) / "
+            "C13_resubmit_connected_refuted (the two tolerated deviations as model facts; "
             "this model is not stepped against the implementation). Tie to the code: extracted Vsm model vs the real ValueSortedMap (two "
             "instantiations) on ALL op sequences up to length 4 (quick) / 5 (thorough) over 16 ops with three "
             "comparator-equal values, and the direct consistency oracle over all mempool views after EVERY line of "
